@@ -239,11 +239,29 @@ more    .fill xBEEF
 """, 0
 
 
-PROGRAMS = [p_reg_midline, p_image_into_device_area, p_call_next, p_call_next_loop, p_store_outside, p_countdown, p_nested_jsr, p_call_rets, p_push_pop, p_selfmod, p_exception, p_halt_middle, p_breaks, p_io,
+def p_selfmod_halt(rnd):
+    # the program writes a HALT over an instruction ahead of the PC (and over one inside a subroutine), then reaches it
+    return """        ld r0 h
+        st r0 target
+        add r1 r1 #1
+        jsr fn
+target  add r1 r1 #2
+        add r1 r1 #4
+        halt
+fn      ld r0 h
+        st r0 inner
+        add r2 r2 #1
+inner   add r2 r2 #2
+        ret
+h       .fill xF025
+""", 0
+
+
+PROGRAMS = [p_selfmod_halt, p_reg_midline, p_image_into_device_area, p_call_next, p_call_next_loop, p_store_outside, p_countdown, p_nested_jsr, p_call_rets, p_push_pop, p_selfmod, p_exception, p_halt_middle, p_breaks, p_io,
             p_unknown_trap, p_selfloop, p_no_halt, p_high]
 
 LABELS = ["here", "next", "ptr", "ptr2", "loop", "main", "val", "fn", "save", "gn", "done", "target", "newi", "dest", "mid", "start", "second", "lbl",
-          "msg", "spin", "tight", "top", "nolabel", "Loop", "ch", "data", "more"]
+          "msg", "spin", "tight", "top", "nolabel", "Loop", "ch", "data", "more", "h", "inner"]
 
 
 def origin_of(text):
